@@ -150,6 +150,14 @@ def check_arm_purity(ctx, rule, P, fns=None, require_floor=None):
             items = scheme_items_in_block(P, fn, bb)
             if not items:
                 continue
+            # two tests of the SAME value that select disjoint variant sets (`if matches!(x, V1) { return } ... match x { V1 => ..`)
+            # make the block unreachable: nothing it mentions is ever used
+            per_scrutinee = {}
+            for adt, v, src, dsc in sc:
+                vs_ = {v} if isinstance(v, str) else set(v)
+                per_scrutinee[dsc] = vs_ if dsc not in per_scrutinee else (per_scrutinee[dsc] & vs_)
+            if any(not vs_ for dsc, vs_ in per_scrutinee.items() if dsc != "?"):
+                continue
             # the set of schemes this block may run under
             allowed = None
             for adt, v, src, _ in sc:
